@@ -237,7 +237,7 @@ def tree_case(ctx, i, terms, info):
     if i < 2:
         ctx.sample({"dirs": t.count, "write_caps_below_root": len(t.write_caps), "nodes_reached_readonly": seen_nodes})
     # ---- model: walk one path through the read cap (and the same path through the write cap)
-    if i < ctx.n(24, 400):
+    if i < ctx.n(16, 300):
         path_model(ctx, i, r, t, root, root_ro, store, tbl, terms, info, case)
 
 
@@ -350,7 +350,7 @@ def flat_case(ctx, i, terms, info):
         if any(sec in v for v in view):
             ctx.oracle_fail("write-cap-visible-to-read-cap-holder", "a child write cap occurs in the bytes a read-cap holder obtains", case=case,
                             expected="absent", observed=sec)
-    if len(spec) <= 4 and i < ctx.n(45, 600):
+    if len(spec) <= 4 and i < ctx.n(36, 500):
         used = set()
         for s in spec:
             used.update(x for x in s[1:3] if x)
@@ -399,7 +399,7 @@ def run(ctx):
     for i in range(ctx.n(150, 1500)):
         flat_case(ctx, i, terms, info)
     known_finding_witness(ctx)
-    bad = ctx.coq_check(IMPORTS, terms, preamble=PREAMBLE, tag="c18", shard=12)
+    bad = ctx.coq_check(IMPORTS, terms, preamble=PREAMBLE, tag="c18", shard=max(8, (len(terms) + 6) // 7))
     for ix in bad:
         if ix < nwalk:
             ctx.mismatch("model-vs-impl:walk", "Coq model of get_child_at_path over the grid and the implementation differ", case=info[ix],
